@@ -104,16 +104,17 @@ Definition dispatch (cmd : string) (args : list sx) : res sx :=
   else if str_eqb cmd "side" then
     (* (side <description tree>) -> (ok #t/#f ...) | (err): the side conditions of the hardware-level theorems *)
     match args with
-    | [x] => match (do d <- parse_desc (yv_of_sx x); side_conditions d) with
+    | [x] => match (do d <- parse_desc (yv_of_sx x); side_conditions sp_nx d) with
              | Ok bs => Ok (L (A "ok" :: map (fun b : bool => A (if b then "#t" else "#f")) bs))
              | Err e => Ok (L [A "err"; A (sanitize e)])
              end
     | _ => Err "side: arity"
     end
   else if str_eqb cmd "tree" then
-    (* (tree <description tree>) -> (ok #t/#f ...) | (err): the hypotheses of C09_model_tree (tree certificate first) *)
+    (* (tree <description tree>) -> (ok #t/#f ...) | (err): the hypotheses of C09_model_tree_nx (tree certificate first),
+       with the generator's own oracle *)
     match args with
-    | [x] => match (do d <- parse_desc (yv_of_sx x); tree_conditions sp_reference d) with
+    | [x] => match (do d <- parse_desc (yv_of_sx x); tree_conditions sp_nx d) with
              | Ok bs => Ok (L (A "ok" :: map (fun b : bool => A (if b then "#t" else "#f")) bs))
              | Err e => Ok (L [A "err"; A (sanitize e)])
              end
